@@ -125,6 +125,29 @@ def run(ck):
                     ck.violation("Lsv/L1vv do not approach their large-rate limit smoothly: deviation %.3g at f=%g (allowed %.3g)" % (dlt, f, 3 * A / min(f, fref) + 1e-5 * smax * scale),
                                  {"crystal": nm, "cutoff": cut, "thermo": {k: np.asarray(v).tolist() for k, v in th.items()}, "f": f,
                                   "L_f": [x.tolist() for x in res[f]], "L_reference": [x.tolist() for x in lim]}, key=key)
+        # (b') the algorithm choice must not depend on the absolute time unit: all rates scaled by g (omega0/1/2 prefactors)
+        # must scale Lss by g exactly, also where the exchange is 1e12..1e14 x the bare rate (Lss is accurate there for
+        # plain crystals; Lsv/L1vv are in the known cancellation regime and not compared)
+        if not multi and not polar:
+            for g in (1e-13, 1e9):
+                for f in (1e12, 1e14):
+                    if f not in res: continue
+                    t = {k: np.array(v, dtype=float) for k, v in th.items()}
+                    t["preT2"] = t["preT2"] * f
+                    for k in ("preT0", "preT1", "preT2"): t[k] = t[k] * g
+                    d.clearcache()
+                    try:
+                        Lg = [np.array(x) for x in d.Lij(*d.preene2betafree(1.0, **t))]
+                    except Exception as e:
+                        ck.violation("Lij raised %r with all rates scaled by %g" % (e, g), {"crystal": nm, "g": g, "f": f}, key="c08-raise"); continue
+                    scale = np.abs(res[f][0]).max()
+                    e0 = np.abs(Lg[0] / g - res[f][0]).max() / scale; es = np.abs(Lg[1] / g - res[f][1]).max() / scale
+                    ck.case(key=("timeunit", nm, g, f, [np.asarray(v).round(10).tolist() for v in th.values()]), nontrivial=True, kind="timeunit:g=%g,f=%g" % (g, f))
+                    if max(e0, es) > 1e-6:
+                        ck.violation("scaling every rate by %g changes L0vv/Lss by more than the factor (relative %.3g, %.3g) at exchange scale %g: "
+                                     "the algorithm selection depends on the time unit" % (g, e0, es, f),
+                                     {"crystal": nm, "cutoff": cut, "g": g, "f": f, "thermo": {k: np.asarray(v).tolist() for k, v in th.items()},
+                                      "L_scaled_over_g": [(x / g).tolist() for x in Lg], "L": [x.tolist() for x in res[f]]}, key="c08-timeunit")
         # (c) forced-large algorithm vs the exact torus chain (crystals outside the known failure regimes)
         M = vm.min_torus(d)
         if not multi and d.N * d.N * M ** crys.dim <= (700 if ck.quick else 2600):
